@@ -169,3 +169,134 @@ Proof.
     match goal with |- context [existsb ?f ?l] => destruct (existsb f l) end; [reflexivity|].
     match goal with |- context [flat_map ?f ?l] => destruct (flat_map f l) end; [reflexivity|]. rewrite P. reflexivity.
 Qed.
+
+(* ---- C12: the recovered keyspace-id counter ---- *)
+Lemma fold_max_ge0 (l : list N) : forall a, a <= fold_left N.max l a /\ forall x, In x l -> x <= fold_left N.max l a.
+Proof.
+  induction l as [|y r IH]; intros a; cbn [fold_left]; [split; [lia|intros x []]|].
+  destruct (IH (N.max a y)) as [A B]. split; [lia|]. intros x [E|I]; [subst; lia|auto].
+Qed.
+Lemma nmax_list_ge l x : In x l -> x <= nmax_list l.
+Proof. unfold nmax_list. intros I. apply (proj2 (fold_max_ge0 l 0)). exact I. Qed.
+
+(* After recovery (any journals, any directories): the id handed to the next new keyspace is above the id of every
+   keyspace directory found and above every keyspace id that occurs in any record (item or clear) of any journal,
+   sealed or active — so records of a deleted keyspace can never be replayed into a keyspace created later. *)
+Theorem recover_next_id_above cfg mode filters active sealed meta dirs pn ms :
+  d_id_reuse cfg = false ->
+  let d := recover cfg mode filters active sealed meta dirs pn ms in
+  (forall p, In p dirs -> fst p < d_next_id d) /\
+  (forall b it, In b (concat sealed ++ active) -> In it (rb_items b) -> ri_ks it < d_next_id d) /\
+  (forall b id, In b (concat sealed ++ active) -> In id (rb_clears b) -> id < d_next_id d).
+Proof.
+  intros J d. unfold d, recover.
+  destruct (fold_left (recover_sealed_one cfg meta _) sealed _) as [[sq1 kss1] sealed'] eqn:R1.
+  destruct (fold_left (replay_batch cfg meta _) active (sq1, kss1)) as [sq2 kss2] eqn:R2.
+  cbn [d_next_id]. rewrite J.
+  set (jids := flat_map (fun b => map ri_ks (rb_items b) ++ rb_clears b) (concat sealed ++ active)).
+  assert (G : forall x, In x (map fst dirs ++ jids) -> x < nmax_list (1 :: map fst dirs ++ jids) + 1).
+  { intros x I. assert (x <= nmax_list (1 :: map fst dirs ++ jids)) by (apply nmax_list_ge; right; exact I). lia. }
+  split; [|split].
+  - intros p I. apply G, in_or_app. left. apply in_map, I.
+  - intros b it Ib Ii. apply G, in_or_app. right. unfold jids. rewrite in_flat_map. exists b. split; [exact Ib|].
+    apply in_or_app. left. apply in_map, Ii.
+  - intros b id Ib Ii. apply G, in_or_app. right. unfold jids. rewrite in_flat_map. exists b. split; [exact Ib|].
+    apply in_or_app. now right.
+Qed.
+
+(* creating a keyspace under a new name uses exactly that counter value and moves the counter past it *)
+Theorem new_keyspace_takes_next_id d h name :
+  blookup name (d_map d) = None ->
+  let d' := fst (do_ks d h name) in
+  d_next_id d' = d_next_id d + 1 /\
+  exists ks, In ks (d_kss d') /\ k_id ks = d_next_id d /\ k_name ks = name /\ k_tree ks = tree_init.
+Proof.
+  intros H. unfold do_ks. rewrite H. cbn. split; [reflexivity|]. eexists. split; [left; reflexivity|]. repeat split.
+Qed.
+
+(* ---- C04: journal records already covered by a keyspace's tables are not replayed ---- *)
+Lemma map_id_on {A} (f : A -> A) (l : list A) : (forall x, In x l -> f x = x) -> map f l = l.
+Proof.
+  induction l as [|a r IH]; intros H; cbn; [reflexivity|].
+  rewrite (H a (or_introl eq_refl)), IH; [reflexivity|]. intros x I. apply H. now right.
+Qed.
+
+Definition covered (s : N) (kss : list kspace) : Prop :=
+  forall k, In k kss -> exists p, t_highest_persisted (k_tree k) = Some p /\ s <= p.
+
+Lemma replay_items_covered cfg s meta mp items : forall kss,
+  d_replay_shadow cfg = false -> covered s kss -> replay_items cfg s kss meta mp items = kss.
+Proof.
+  intros kss J C. unfold replay_items. induction items as [|it r IH]; cbn [fold_left]; [reflexivity|].
+  destruct (alookup (ri_ks it) meta) as [name|]; [|exact IH].
+  destruct (blookup name mp) as [id|]; [|exact IH].
+  rewrite map_id_on; [exact IH|].
+  intros k I. destruct (k_id k =? id); [|reflexivity]. rewrite J. cbn [negb andb].
+  destruct (C k I) as [p [-> L]]. destruct (N.leb_spec s p); [reflexivity|lia].
+Qed.
+
+Lemma replay_clears_covered cfg s meta mp clears : forall sq kss,
+  d_clear_replay cfg = false -> covered s kss -> replay_clears cfg s (sq, kss) meta mp clears = (sq, kss).
+Proof.
+  intros sq kss J C. unfold replay_clears. induction clears as [|c r IH]; cbn [fold_left]; [reflexivity|].
+  destruct (alookup c meta) as [name|]; [|exact IH].
+  destruct (blookup name mp) as [id|]; [|exact IH].
+  assert (E : existsb (fun k => (k_id k =? id) &&
+                 negb (negb (d_clear_replay cfg) && match t_highest_persisted (k_tree k) with
+                                                    | Some p => s <=? p | None => false end)) kss = false).
+  { apply Bool.not_true_is_false. intros H. rewrite existsb_exists in H. destruct H as [k [I H]].
+    destruct (C k I) as [p [P L]]. rewrite J, P in H. destruct (N.leb_spec s p); [|lia].
+    cbn in H. rewrite Bool.andb_false_r in H. discriminate. }
+  rewrite E. exact IH.
+Qed.
+
+(* a whole journal batch (items and clears) whose seqno every keyspace's tables already cover changes nothing at replay:
+   newer table data that never went through the journal (bulk ingestion, compaction filter output) cannot be shadowed,
+   and tables written after a clear cannot be wiped by replaying that clear *)
+Theorem replay_covered_noop cfg meta mp sq kss b :
+  d_replay_shadow cfg = false -> d_clear_replay cfg = false -> covered (rb_seqno b) kss ->
+  replay_batch cfg meta mp (sq, kss) b = (sq, kss).
+Proof.
+  intros J1 J2 C. unfold replay_batch. rewrite replay_items_covered by assumption. apply replay_clears_covered; assumption.
+Qed.
+
+(* ... and a record that the tables do not cover is put back into the keyspace's active memtable *)
+Theorem replay_uncovered_appended cfg s meta mp k it name :
+  alookup (ri_ks it) meta = Some name -> blookup name mp = Some (k_id k) ->
+  (forall p, t_highest_persisted (k_tree k) = Some p -> p < s) ->
+  replay_items cfg s [k] meta mp [it] =
+  [with_tree k (t_append (k_tree k) (mkEnt (ri_key it) s (ri_vt it) (ri_value it)))].
+Proof.
+  intros A B U. unfold replay_items. cbn [fold_left]. rewrite A, B. cbn [map]. rewrite N.eqb_refl.
+  destruct (t_highest_persisted (k_tree k)) as [p|] eqn:P.
+  - specialize (U p eq_refl). destruct (N.leb_spec s p); [lia|]. rewrite Bool.andb_false_r. reflexivity.
+  - rewrite Bool.andb_false_r. reflexivity.
+Qed.
+
+(* non-vacuity: a keyspace whose table holds seqno 5 covers a batch with seqno 3 *)
+Definition c04_tree : tree :=
+  {| mems := [ {| m_id := 0; m_ents := [] |} ];
+     vers := [ {| v_seq := 6; v_active := 0; v_sealed := []; v_tables := [mkEnt [97] 5 VValue [1]] |} ];
+     next_mid := 1 |}.
+Definition c04_ks : kspace := {| k_id := 1; k_name := [97]; k_tree := c04_tree; k_deleted := false; k_filter := None |}.
+Example covered_example : covered 3 [c04_ks].
+Proof. intros k [<-|[]]. exists 5. split; [reflexivity|lia]. Qed.
+
+(* ---- C02 (model level): an acknowledged single write is in the active journal with the seqno it was applied with ---- *)
+Theorem write_one_journaled d id k v vt mvt d' :
+  write_one d id k v vt mvt = (d', ObOk) ->
+  d_active d' = d_active d ++ [mk_batch (d_seqno d) [{| ri_ks := id; ri_key := k; ri_value := v; ri_vt := vt |}] []] /\
+  d_seqno d' = d_seqno d + 1 /\ d_sealed d' = d_sealed d.
+Proof.
+  unfold write_one. destruct (ks_of d id) as [ks|]; [|discriminate].
+  destruct (k_deleted ks); [discriminate|]. destruct (d_poisoned d); [discriminate|].
+  intros H. injection H as <-. unfold commit_batch. cbn. auto.
+Qed.
+
+Theorem clear_journaled d id d' :
+  do_clear d id = (d', ObOk) ->
+  d_active d' = d_active d ++ [mk_batch (d_seqno d) [] [id]].
+Proof.
+  unfold do_clear. destruct (ks_of d id) as [ks|]; [|discriminate]. destruct (d_poisoned d); [discriminate|].
+  cbn. intros H. injection H as <-. reflexivity.
+Qed.
